@@ -6,6 +6,7 @@ mod gen_exp;
 mod props;
 mod rng;
 mod sx;
+mod syntax;
 
 use std::io::Write;
 
